@@ -328,3 +328,36 @@ func VerifC06_RemoveEntitiesRelTarget() {
 }
 func VerifC06_NewPlain() { vBatchNew(0) }
 func VerifC06_NewRel()   { vBatchNew(1) }
+
+// ---- C10 for batch forms: a batch call whose precondition fails (component already
+// present / missing, dead relation target) panics and leaves entities, components,
+// values, relations AND the lock state exactly as before.
+func VerifC10_BatchPreconditions() {
+	vMode = 0
+	W := vShapeFor(1)
+	all := NewFilter1[vPos](W.w)
+	dead := Entity{}
+	for j := 0; j < W.n; j++ {
+		if !W.e[j].alive {
+			dead = W.e[j].h
+		}
+	}
+	which := vPick("call", 6)
+	W.expectReject("batch", func() {
+		switch which {
+		case 0: // every selected entity already has A
+			NewMap1[vPos](W.w).AddBatch(all.Batch(), &vPos{1, 2})
+		case 1: // nobody selected has T
+			NewMap1[vTag](W.w).RemoveBatch(all.Batch(), nil)
+		case 2: // exchange removing a missing component
+			NewExchange1[vVel](W.w).Removes(C[vTag]()).ExchangeBatch(all.Without(C[vVel]()).Batch(), &vVel{1})
+		case 3: // dead relation target
+			NewMap1[vChild](W.w).SetRelationsBatch(NewFilter1[vChild](W.w).Batch(), nil, RelIdx(0, dead))
+		case 4: // adding a relation component without naming its target
+			NewMap1[vChild2](W.w).AddBatch(all.Without(C[vChild2]()).Batch(), &vChild2{})
+		case 5: // some selected entities have the component, some do not
+			NewMap1[vPos](W.w).AddBatch(NewFilter0(W.w).Batch(), &vPos{3, 4})
+		}
+	})
+	vreach("end")
+}
